@@ -6,6 +6,7 @@
        counts never exceeds its value, in every reachable final state. *)
 From Coq Require Import ZArith List.
 Require Import SP.Base.PyRt SP.Gen.LimitsPy SP.Spec.Cal SP.Proofs.LimitsIdx SP.Model.Sched SP.Proofs.SchedInv.
+Require Import SP.Model.Alap SP.Proofs.AlapProofs.
 Open Scope Z_scope.
 
 Theorem C05_daily_period : forall start g i j,
@@ -24,3 +25,11 @@ Print Assumptions C05_weekly_period.
 Theorem C05_schedule : forall p l k, (usage p (schedule p) l k <= l_value (lim_of p l))%nat.
 Proof. intros p. apply (inv_limit p _ (schedule_inv p)). Qed.
 Print Assumptions C05_schedule.
+
+(* ---- backward (ALAP) mode: the project record is read backwards (Model/Alap.v: t_deps = successor edges,
+   t_pin = own end, t_lb = earliest deadline of the enclosing containers, n = p_upper slots) and the schedule
+   is the mirror image of the forward schedule of the mirrored project *)
+Theorem C05_alap : forall p l k,
+  (usage p {| bookings := alap_bookings p; placed := nil |} l k <= l_value (lim_of p l))%nat.
+Proof. exact alap_limits. Qed.
+Print Assumptions C05_alap.
